@@ -259,11 +259,11 @@ def run(tier, seed, replay=None):
         lang = ["java", "kotlin", "groovy", "scala"][i % 4]
         text, truth, crash = synth(rng, lang)
         filters = []
-        if rng.random() < 0.15 and truth:
-            # a user filter pattern that disregards one kind of message
-            w = rng.choice(WORDS).split()[0]
-            filters = {"java": [r"[a-zA-Z0-9/_]+\.java:\d+: error: %s.*" % w],
-                       "kotlin": [r"[a-zA-Z0-9/_]+\.kt:\d+:\d+: error: %s.*" % w],
+        if rng.random() < 0.2 and truth:
+            # 1-3 user filter patterns, each disregarding one kind of message
+            ws = rng.sample([w.split()[0] for w in WORDS], rng.randint(1, 3))
+            filters = {"java": [r"[a-zA-Z0-9/_]+\.java:\d+: error: %s.*" % w for w in ws],
+                       "kotlin": [r"[a-zA-Z0-9/_]+\.kt:\d+:\d+: error: %s.*" % w for w in ws],
                        "groovy": [], "scala": []}[lang]
         e2e.append((lang, text, filters, truth, crash))
     e2e = [x for x in e2e if ascii_ok(x[1])]
@@ -328,8 +328,16 @@ def run(tier, seed, replay=None):
                                 problem = "message %r for %s does not carry the diagnostic %r" % (g[:60], f, core[:60])
         else:
             got = dict(r[1])
-            if not set(got) <= set(truth):
-                problem = "with a filter pattern, files %s were added" % sorted(set(got) - set(truth))
+            words = [re.search(r"error: (\w+)", f).group(1) for f in filters]
+            want = {}
+            for f, msgs in truth.items():
+                keep = [m_ for m_ in msgs if not any(re.search(r"error: %s" % w, m_) or m_.startswith(w) for w in words)]
+                if keep:
+                    want[f] = keep
+            if set(got) != set(want):
+                problem = "with filter patterns %s the files %s are reported, expected %s" % (words, sorted(got), sorted(want))
+            elif any(len(got[f]) != len(want[f]) for f in want):
+                problem = "with filter patterns %s a filtered message is still reported (or an unfiltered one dropped)" % (words,)
         if problem:
             spec_viol += 1
             judged_bad.add(i)
